@@ -2,9 +2,10 @@ SPECIFICATION Spec
 CONSTANTS
   CurveNames = {"E13", "E16M3"}
   Bases = {1, 1000}
-  CH = 256
-  Stride = 1
-  DN = 4
-INVARIANTS Closed Ladder Special Cycle DblOk
+  KFrom = 0
+  KTo = 0
+  Stride = 4
+  DStride = 64
+INVARIANTS Closed Cycle Ladder Special DblOk
 CONSTRAINT Emit
 CHECK_DEADLOCK FALSE
